@@ -15,8 +15,8 @@ From J5V.lib Require Civil Decimal.
 From J5V.proofs Require CodecDecDecimal CodecDecTimeFast.
 From Coq Require Import Permutation.
 From J5V.model Require CodecDecCommute.
-From J5V.proofs Require CodecDecMsgSorted CodecDecReorder CodecDecLenient CodecDecOneofReorder CodecDecDenote CodecDecFull CodecDecSpace CodecDecFloatProofs.
-From J5V.model Require CodecDecFloat.
+From J5V.proofs Require CodecDecMsgSorted CodecDecReorder CodecDecLenient CodecDecOneofReorder CodecDecDenote CodecDecFull CodecDecSpace CodecDecFloatProofs CodecDecLeaf CodecDecExposedStored.
+From J5V.model Require CodecDecFloat CodecDecExposedCheck.
 Import ListNotations.
 Local Open Scope N_scope.
 
@@ -863,13 +863,67 @@ Theorem C03_decimal_exact_closed : forall quoted s c,
 Proof. exact CodecDecFloatProofs.decimal_exact_closed. Qed.
 Print Assumptions C03_decimal_exact_closed.
 
+(* ------------------------------------------------------------------ the leaf reading, without the conversion function *)
+(* proofs/CodecDecLeaf.v: [leaf_reading orc k j x] says what a scalar token denotes kind by kind in independent
+   terms (integers: positional value of sign and digits, within the width; bool / string / key as written;
+   timestamps: a text of the RFC 3339 shape with fields in range and its instant; decimals: canonical text of
+   the number read; dates: three decimal numbers forming a calendar date; floats: nearest-even rounding of
+   the number written; bytes: the model's lenient base64 reading).  Under the three oracle premises (jointly
+   satisfiable: C03_oracle_premises_satisfied) every scalar leaf of a denotation has such a reading. *)
+Theorem C03_leaf_reading_complete : forall orc,
+  T.time_oracle_is_model orc -> D.decimal_oracle_is_model orc -> CodecDecFloat.float_oracle_law orc ->
+  forall k j x, is_container j = false -> scalar_from_go orc k (goval_of_json j) = Ok (Some x) ->
+  CodecDecLeaf.leaf_reading orc k j x.
+Proof. exact CodecDecLeaf.leaf_complete. Qed.
+Print Assumptions C03_leaf_reading_complete.
+
+Theorem C03_denoted_scalar_has_independent_reading : forall orc e k j x,
+  T.time_oracle_is_model orc -> D.decimal_oracle_is_model orc -> CodecDecFloat.float_oracle_law orc ->
+  CodecDecDenote.denotes orc e (FScalar k) j x -> CodecDecLeaf.leaf_reading orc k j x.
+Proof. exact CodecDecLeaf.denoted_scalar_reading. Qed.
+Print Assumptions C03_denoted_scalar_has_independent_reading.
+
+(* non-vacuity of the denotation theorem: pos_env passes the separation check and the members of ok_tree
+   denote the decoded message *)
+Example C03_example_denoted :
+  CodecDecDenote.denotes_msg no_oracles pos_env
+    [mkProp [114] [2] false false [] (FArray (FScalar KString)); mkProp [99] [5] false true [] (FObject [78])]
+    [([114], JArr [JStr [97]; JStr [98]]); ([99], JObj [([114], JArr [JStr [120]])])]
+    [(2, VList [VStr [97]; VStr [98]]); (5, VMsg [(2, VList [VStr [120]])])].
+Proof.
+  assert (Hs : CodecDecFull.env_sep pos_env) by (apply CodecDecFull.env_separate_sound; vm_compute; reflexivity).
+  eapply (CodecDecDenote.object_body_denoted no_oracles pos_env Hs 20 0).
+  - apply (Hs [78]). left. reflexivity.
+  - vm_compute. reflexivity.
+Qed.
+
+(* ------------------------------------------------------------------ members that are exposed oneofs *)
+(* An exposed oneof has no proto path of its own: its arms are fields of the enclosing message.  For
+   environments that also pass the computable check env_exposed_ok (the arms of an exposed oneof are separate
+   from every other property of the set; evaluated on every real environment, CEnv), every non-null,
+   non-"!type" member of the body of an exposed-oneof member of an accepted document is stored in the root
+   message, at the arm's proto path, with exactly the value it denotes. *)
+Theorem C03_exposed_oneof_members_stored : forall orc e root props fuel ms m',
+  env_separate e = true -> CodecDecExposedCheck.env_exposed_ok e = true ->
+  lookup e root = Some (SObject props) -> tr_decode orc e fuel root (JObj ms) = Ok m' ->
+  forall key v p ref ps, In (key, v) ms -> v <> JNull -> find_prop props key = Some p ->
+    p_path p = [] -> p_ty p = FOneof ref -> lookup e ref = Some (SOneof ps) ->
+    exists ms', v = JObj ms' /\
+      forall k' v', In (k', v') (CodecDecOneofReorder.nontype ms') -> v' <> JNull ->
+        exists q, find_prop ps k' = Some q /\
+          (p_path q <> [] -> exists x, CodecDecDenote.denotes orc e (p_ty q) v' x /\
+                                       get_path (p_path q) m' = CodecDecDenote.stored_as q x).
+Proof. exact CodecDecExposedStored.exposed_members_of_document. Qed.
+Print Assumptions C03_exposed_oneof_members_stored.
+
 (* LIMITS of C03_full (also in pylib/propcfg/C03.py "partial"):
-   - the leaf reading inside [denotes] is the conversion of the one token (scalar_from_go); what that
-     conversion computes is characterised independently per kind by the scalar theorems above (integers,
-     dates, timestamps, decimals, bool / string / key, base64 canonical forms); float64 / float32 values
-     rest on the float oracle (C03_float_* below / above);
-   - members whose property is an exposed oneof (empty proto path) are covered by clause (2) of
-     denotes_msg ("nothing else", via owns) but not by the per-member clause (1);
+   - the leaf reading inside [denotes] is the conversion of the one token (scalar_from_go); every such leaf
+     has the independent reading leaf_reading (C03_denoted_scalar_has_independent_reading) under the three
+     oracle premises; for bytes that reading is still the model's lenient base64 decoder (canonical
+     spellings: C03_base64_four_spellings); float values rest on the float oracle law;
+   - members whose property is an exposed oneof (empty proto path) are outside the per-member clause (1) of
+     denotes_msg; they are covered by the separate theorem C03_exposed_oneof_members_stored (root level, under
+     the additional check env_exposed_ok) and by clause (2) ("nothing else", via owns);
    - the hypothesis [lex bs = (tokens_of (JObj ms) ++ rest, me)]: that every accepted text has such a
      reading is not proved (malformed texts end the token list early and the descent fails on them);
    - (2) is one direction (accepted original => accepted variant); the converse holds for member
